@@ -348,10 +348,14 @@ tzm_find_zn(const char *zn, size_t zz)
 	char *restrict p = zns;
 	const char *const ep = zns + znz;
 
-	for (; p < ep && *p && strncmp(p, zn, zz); p += strlen(p), p++);
+	for (; p < ep && *p && (strncmp(p, zn, zz) || p[zz]);
+	     p += strlen(p), p++);
 	if (*p) {
 		/* found it, yay */
 		return p - zns;
+	} else if (UNLIKELY(p - zns > 0xffff)) {
+		/* offsets are stored in 16 bits */
+		return -1U;
 	}
 	/* otherwise append, first check if there's room */
 	if (p + zz + 4U >= ep) {
